@@ -57,7 +57,7 @@ Lemma raw_block_item_lf i l rest :
   raw_block (wrap_line l (ritem_text i) ++ LF :: ritem_body i ++ rest) =
     match i with
     | RBlank => RSkip rest
-    | RReq t b => RFound {| rb_buf := b; rb_tag := t |} rest (Some (nlen b, nlen (b ++ rest)))
+    | RReq t b => RFound {| rb_buf := b; rb_tag := t |} rest (Some (alloc_of (nlen b) (nlen (b ++ rest)), nlen (b ++ rest)))
     end.
 Proof.
   intros H. unfold raw_block.
@@ -75,7 +75,7 @@ Proof.
   cbn [ritem_body].
   assert (Hnz : (Z.of_N (nlen b) =? 0)%Z = false).
   { apply Z.eqb_neq. destruct b; [discriminate|]. cbn [nlen]. lia. }
-  rewrite Hnz. rewrite alloc_read_exact by exact Hb. reflexivity.
+  rewrite Hnz. rewrite alloc_read_exact. reflexivity.
 Qed.
 
 Lemma raw_inner_items fin items : forall fuel,
